@@ -11,17 +11,17 @@ Definition spec_numops : numops :=
     (fun text m t v => match spec_unary_of_text text with Some u => Some (spec_unary u m t v) | None => None end)
     (fun text m t1 v1 t2 v2 => match spec_action_of_text text with Some a => Some (spec_row a m t1 v1 t2 v2) | None => None end).
 
-Fixpoint show_deep (fuel : nat) (s : state) (d : nat) : string :=
+Fixpoint show_deep (fuel : nat) (s : state) (d : dloc) : string :=
   match fuel with
   | O => "..."
   | S f =>
-      match nth_error (s_data s) d with
+      match nth_error (s_data s) (dl d) with
       | None => "dangling"
       | Some x =>
           match d_obj x with
           | None => "undef"
-          | Some ol =>
-              match nth_error (s_objs s) ol with
+          | Some l =>
+              match nth_error (s_objs s) (ol l) with
               | None => "dangling"
               | Some (ONum tn t v) => tn ++ ":" ++ show_val t v
               | Some (OBool b) => "bool:bool:" ++ (if b then "1" else "0")
@@ -40,18 +40,18 @@ Fixpoint show_deep (fuel : nat) (s : state) (d : nat) : string :=
 Definition show_trace (st : list trace_entry) : string :=
   "[" ++ join "," (map (fun e => let 'TE k l := e in name_of_kind k ++ "@" ++ dec_of_z (l_line l) ++ ":" ++ dec_of_z (l_col l)) st) ++ "]".
 
-Definition show_result (r : res nat) (s : state) : string :=
+Definition show_result (r : res dloc) (s : state) : string :=
   "OUT " ++ hex_of_string (s_out s) ++ " || " ++
   match r with
   | RVal d => "RES " ++ show_deep 9 s d
-  | RRet d => "RES " ++ show_deep 9 s d
-  | RBreak => "ERR(break)"
-  | RCont => "ERR(continue)"
-  | RThrow (EBoxed d) => "ERR(boxed) " ++ show_deep 9 s d
-  | RThrow (EEval reason st) => "ERR(eval_error) " ++ hex_of_string reason ++ " " ++ show_trace st
-  | RThrow (EStd ty w) => "ERR(" ++ ty ++ ") " ++ hex_of_string w
+  | RFail (FRet d) => "RES " ++ show_deep 9 s d
+  | RFail FBreak => "ERR(break)"
+  | RFail FCont => "ERR(continue)"
+  | RFail (FThrow (EBoxed d)) => "ERR(boxed) " ++ show_deep 9 s d
+  | RFail (FThrow (EEval reason st)) => "ERR(eval_error) " ++ hex_of_string reason ++ " " ++ show_trace st
+  | RFail (FThrow (EStd ty w)) => "ERR(" ++ ty ++ ") " ++ hex_of_string w
   | RFuel => "FUEL"
-  | RUnsup w => "UNSUP " ++ w
+  | RFail (FUnsup w) => "UNSUP " ++ w
   end.
 
 (* input: "<hints:0|1> <fuel> <tree dump>" *)
